@@ -62,7 +62,8 @@ PROPS["C02"] = {
             "serializer x threshold {0, len-1, len, 1, huge} x key_exists x TargetReplace x 19 version strings x target rejecting types x "
             "shift x hash-tag replacement x ucloud x pre-existing key of each type; collection sizes 0,1,2..7,99,100,101,200,201; "
             "expired/unexpired; chunked hashes as entry sequences with server-clock gaps; malformed payloads (truncated bodies, damaged "
-            "trailers, type mismatches). cmpver: CompareVersion on version strings x levels. "
+            "trailers, type mismatches). cmpver: CompareVersion on version strings x levels. zl: the element-wise route's ziplist reader alone "
+            "(ReadZiplistLength + ReadZiplistEntry) on lists of 0..11 and 65534..131072 entries (count field saturated at 65535), intact and damaged. "
             "non-trivial = at least one command sent or a non-ok result; distinct by case text",
     "nontrivial": _nontrivial,
     "equal": _equal,
